@@ -142,6 +142,14 @@ def info(t, tvmap=None):
     if issubclass(base, str):
         return TI("str", base)
     a0 = a[0] if a else typing.Any
+    ti = _container(base, a, a0)
+    if ti is not None:
+        ti.origin = base
+        return ti
+    raise TypeError("unsupported type %r" % (t,))
+
+
+def _container(base, a, a0):
     if base is collections.ChainMap:
         return TI("chainmap", base, args=(a0, a[1] if len(a) > 1 else typing.Any))
     if base is collections.Counter:
@@ -164,7 +172,7 @@ def info(t, tvmap=None):
         return TI("seq", set, args=(a0,))
     if issubclass(base, collections.abc.Sequence):
         return TI("seq", list, args=(a0,))
-    raise TypeError("unsupported type %r" % (t,))
+    return None
 
 
 def dc_fields(cls, tvmap=None):
